@@ -453,6 +453,9 @@ def real_programs(ck: Check):
     for x0 in (1e10, -1e10, 3e11, 9999999999.999998, -9999999999.999998):
         yield "start:edge", [x0, 0.0], lin_eq, lin_ctrl, P(), 1, 5, 1.0, True, None
         yield "start:edge-decay", [x0, -1.0], lin_eq, lin_ctrl, P(), 1, 5, 1.0, True, None
+        # the differential -x/2 is in range although the state is not: only the first-row check can notice
+        yield "start:edge-decay", [x0, -0.5], lin_eq, lin_ctrl, P(), 1, 5, 1.0, True, None
+        yield "start:edge-decay", [1.5 * x0, -0.5], lin_eq, lin_ctrl, P(), 1, 9, 4.0, True, None
     # (a time limit beyond 1e10 makes the time column leave the range: scripted stream only, because
     #  `max_step=steps` would need > 1e9 real integrator steps)
 
